@@ -3,7 +3,8 @@ import XmppModel.Model.Muc
 /-! Driver module for C18: replays an observed MUC history on the LTS of `Model/Muc.lean`.
 
     C18 muc <addrs> <trace>      addrs: occupant address id of channel 0,1,… (`,`-joined)
-      J<c> Join starts (registered, request queued); J<c>@<a> the same with the Nick option (address a)
+      J<c> Join starts (registered, request queued); J<c>@<a> the same with the Nick option (address a);
+        a trailing `!` (J<c>!, J<c>@<a>!, L<c>!): through JoinPresence / LeavePresence with the caller's presence
       s<c> Join enters its select   R<c>re Join refused at once (address in use by another channel)
       A<a> / U<a> available / unavailable muc#user presence from address a processed; optional payload
         suffix `:<aff><role><codes><flags>` (harness/c18/payload.go), default member / participant / 110
@@ -13,6 +14,11 @@ import XmppModel.Model.Muc
       D<c>ok | D<c>se | D<c>ce   Leave returned
       I mediated invitation   N unrelated stanza   ?<bits> Joined() of every channel
       =<a0>.<a1>… Me() of every channel (emitted when it changed)
+      %c | %s | %a  (first token, optional) stanza namespace of the session: jabber:client (default),
+        jabber:server, jabber:component:accept; a following `n` (%cn …): a Client without callbacks
+      Ej<c>:<shape> / El<c>:<shape>  the error reply with the given children (harness/c18/reply.go):
+        x echoed muc x, w white space, p echoed <priority/>, s echoed <status/>, then the error element
+        (e b n a m t g: forms of the error; its namespace is the session's)
     answer: `joined=<bits> upres=<n> inv=<n>` or `bad@n:tok`
 -/
 namespace XmppModel.Driver.C18
@@ -26,7 +32,7 @@ def chk (b : Bool) (s : St) : Option St := if b then some s else none
 
 def parseChild (c : Char) : Option Child :=
   if c = 'b' then some .body else if c = 's' then some .subject else if c = 'l' then some .legacyX
-  else if c = 'u' then some .unrelated else if c = 'm' ∨ c = 'M' then some .mucInvite
+  else if c = 'u' then some .unrelated else if c = 'm' ∨ c = 'M' ∨ c = 'P' then some .mucInvite
   else if c = 'd' then some .mucOther else none
 
 def affOfLetter (c : Char) : Option (Option String) :=
@@ -59,21 +65,53 @@ def presAddr (r : List Char) : Option Nat :=
   | [as, p] => if payloadOk p.toList then as.toNat? else none
   | _ => none
 
-def applyTok (n : Nat) (s : St) (tok : String) : Option St :=
+/-- configuration token: stanza namespace of the session, and whether the application has set the
+callbacks (`n`: it has not — the bookkeeping is the same, nothing is called) -/
+def cfgNs (tok : String) : Option (String × Bool) :=
+  if tok = "%c" then some (nsClient, true) else if tok = "%s" then some (nsServer, true)
+  else if tok = "%a" then some (nsAccept, true)
+  else if tok = "%cn" then some (nsClient, false) else if tok = "%sn" then some (nsServer, false)
+  else if tok = "%an" then some (nsAccept, false) else none
+
+/-- children of an error reply of the given shape on a stream whose stanza namespace is `ns` -/
+def shapeChild (ns : String) (c : Char) : Option RChild :=
+  if c = 'x' then some (.elem nsMuc "x") else if c = 'w' then some .text
+  else if c = 'p' then some (.elem ns "priority") else if c = 's' then some (.elem ns "status")
+  else if c = 'e' ∨ c = 'b' ∨ c = 'n' ∨ c = 'a' ∨ c = 'm' ∨ c = 't' ∨ c = 'g' then some (.elem ns "error")
+  else none
+
+/-- the reply is one the model's `joinError` / `leaveError` stand for iff the scan finds the error
+element, which is the last child of the shape -/
+def replyOk (ns : String) (shape : List Char) : Bool :=
+  match mapM? (shapeChild ns) shape with
+  | some cs => cs.length > 0 && findError cs == some (cs.length - 1)
+  | none => false
+
+/-- `<c>` or `<c>:<shape>` -/
+def replyChan (ns : String) (r : List Char) : Option (List Char) :=
+  match (String.ofList r).splitOn ":" with
+  | [cs] => some cs.toList
+  | [cs, sh] => if replyOk ns sh.toList then some cs.toList else none
+  | _ => none
+
+def applyTok (ns : String) (n : Nat) (s : St) (tok : String) : Option St :=
   let idx (r : List Char) : Option Nat := do let c ← numOf r; if c < n then some c else none
+  -- a trailing `!` on J / L: the call went through JoinPresence / LeavePresence with a presence of
+  -- the caller's; the bookkeeping is the same
+  let bang (r : List Char) : List Char := if r.getLast? = some '!' then r.dropLast else r
   match tok.toList with
   | 'J' :: r =>
     -- J<c>: Join asking for the address the channel holds;  J<c>@<a>: Nick option, address a
-    match (String.ofList r).splitOn "@" with
+    match (String.ofList (bang r)).splitOn "@" with
     | [cs] => do let c ← idx cs.toList; step s (.joinStart c (s.cur c))
     | [cs, as] => do let c ← idx cs.toList; let a ← as.toNat?; step s (.joinStart c a)
     | _ => none
   | 's' :: r => do let _ ← idx r; some s   -- entering the select is not a model step
   | 'A' :: r => do let a ← presAddr r; step s (.avail a)
   | 'U' :: r => do let a ← presAddr r; step s (.unavail a)
-  | 'E' :: 'j' :: r => do let c ← idx r; step s (.joinError c)
+  | 'E' :: 'j' :: r => do let c ← (replyChan ns r).bind idx; step s (.joinError c)
   | 'X' :: 'j' :: r => do let c ← idx r; step s (.joinCancel c)
-  | 'E' :: 'l' :: r => do let c ← idx r; chk (s.lpc c == .waiting) s
+  | 'E' :: 'l' :: r => do let c ← (replyChan ns r).bind idx; chk (s.lpc c == .waiting) s
   | 'X' :: 'l' :: r => do let c ← idx r; chk (s.lpc c == .waiting) s
   | 'R' :: r =>
     let str := String.ofList r
@@ -92,7 +130,7 @@ def applyTok (n : Nat) (s : St) (tok : String) : Option St :=
       let s' ← step s (.joinCleanup c)
       chk (s'.lastJoin c == some (.err .ctxErr)) s'
     else none
-  | 'L' :: r => do let c ← idx r; step s (.leaveStart c)
+  | 'L' :: r => do let c ← idx (bang r); step s (.leaveStart c)
   | 'l' :: r => do let _ ← idx r; some s
   | 'D' :: r =>
     let str := String.ofList r
@@ -118,10 +156,10 @@ def applyTok (n : Nat) (s : St) (tok : String) : Option St :=
     chk (l == (List.range n).map s.cur) s
   | _ => none
 
-def replay (n : Nat) : List String → Nat → St → Except String St
+def replay (ns : String) (n : Nat) : List String → Nat → St → Except String St
   | [], _, s => .ok s
-  | t :: ts, k, s => match applyTok n s t with
-    | some s' => replay n ts (k + 1) s'
+  | t :: ts, k, s => match applyTok ns n s t with
+    | some s' => replay ns n ts (k + 1) s'
     | none => .error s!"bad@{k}:{t}"
 
 def handle (args : List String) : Option String :=
@@ -129,8 +167,12 @@ def handle (args : List String) : Option String :=
   | ["muc", addrs, trace] => do
     let l ← mapM? String.toNat? (splitList addrs)
     let addr := fun c => match l[c]? with | some a => a | none => 100000 + c
-    match replay l.length (splitList trace) 0 (init addr) with
-    | .ok s => pure s!"joined={bits l.length s} upres={s.upres} inv={s.invites}"
+    let toks := splitList trace
+    let ((ns, cb), toks) := match toks with
+      | t :: ts => (match cfgNs t with | some c => (c, ts) | none => ((nsClient, true), toks))
+      | [] => ((nsClient, true), toks)
+    match replay ns l.length toks 0 (init addr) with
+    | .ok s => pure s!"joined={bits l.length s} upres={if cb then s.upres else 0} inv={if cb then s.invites else 0}"
     | .error e => pure e
   | _ => none
 
